@@ -329,13 +329,18 @@ impl LLFree<'_> {
             self.trees
                 .reserve_or_steal(i, class, 1 << order, self.policy)
         {
-            let class_len = self
-                .locals
-                .class_locals(target_class)
-                .expect("Invalid class");
-            // Target might have less locals or none
-            assert!(class_len > 0, "No locals for class {target_class:?}");
-            let local = local % class_len;
+            // A local is only needed for a new reservation (of the requested class).
+            // When stealing, the target class might have less locals or none.
+            let local = if reserved {
+                let class_len = self
+                    .locals
+                    .class_locals(target_class)
+                    .expect("Invalid class");
+                assert!(class_len > 0, "No locals for class {target_class:?}");
+                local % class_len
+            } else {
+                local
+            };
 
             // Perform lower alloc, if it fails undo reservation
             match self.lower.get(i.as_row(), order, None) {
